@@ -790,7 +790,8 @@ func (env *Env) call(x ECall) TV {
 		}
 		oldH := env.old
 		if oldH == nil {
-			oldH = env.heap
+			// inside a spec function: "entry" allocation state is a parameter
+			oldH = func(k string) *Term { return env.heap(k + "@entry") }
 		}
 		var al *Term
 		switch v.T.Sort {
@@ -837,6 +838,13 @@ func (env *Env) call(x ECall) TV {
 		}
 		return TV{T: Ite(Eq(v.T, IntLit(0)), MkIface(IntLit(int64(w.tagOf(v.Ty))), IntLit(0)), MkIface(IntLit(int64(w.tagOf(v.Ty))), v.T)),
 			Ty: types.NewInterfaceType(nil, nil)}
+	case "wfi":
+		// wfi(x): the interface value holds a non-nil pointer
+		v := env.comp(x.Args[0])
+		if v.T == nil || v.T.Sort != SIface {
+			cfail("wfi(interface)")
+		}
+		return TV{T: And(Not(Eq(IfTag(v.T), IntLit(0))), Gt(IfRef(v.T), IntLit(0))), Ty: boolT}
 	case "typeis":
 		// typeis(iface, "T") : dynamic type test
 		v := env.comp(x.Args[0])
@@ -890,6 +898,14 @@ func (env *Env) call(x ECall) TV {
 	}
 	var args []*Term
 	for _, k := range sig.heapKeys {
+		if strings.HasSuffix(k, "@entry") {
+			if env.old != nil {
+				args = append(args, env.old(strings.TrimSuffix(k, "@entry")))
+			} else {
+				args = append(args, env.heap(k))
+			}
+			continue
+		}
 		args = append(args, env.curHeap(k))
 	}
 	for i, a := range x.Args {
